@@ -99,11 +99,28 @@ Definition listed_text (verbose : bool) (rs : list result) : list entry :=
   let '(p, w, f, g) := text_partition rs in
   map entry_of (f ++ w ++ (if verbose then g ++ p else [])).
 
-(* html.rs AggregateStats: sums of the raw stats of every result (structure results included) *)
+(* html.rs AggregateStats (the Total Lines / Code / Comments / Blanks cards of check --format html).
+   A structure result carries a synthetic count in its statistics (files, directories or depth of
+   the offending directory: check_output.rs structure_violation_to_check_result), not line counts.
+     html_aggregate_v0  the tree before fixes/D75-*.patch: raw stats of every result are summed,
+                        structure results included;
+     html_aggregate     the repaired tree: only content results (the ones that stand for a file). *)
+Definition add_stats (a s : lstats) : lstats :=
+  {| l_total := l_total a + l_total s; l_code := l_code a + l_code s;
+     l_comment := l_comment a + l_comment s; l_blank := l_blank a + l_blank s |}.
+
+Definition is_content (r : result) : bool := negb (r_structure r).
+
+Definition html_aggregate_v0 (rs : list result) : lstats :=
+  fold_left (fun a r => add_stats a (raw_stats r)) rs lstats0.
+
 Definition html_aggregate (rs : list result) : lstats :=
-  fold_left (fun a r => let s := raw_stats r in
-    {| l_total := l_total a + l_total s; l_code := l_code a + l_code s;
-       l_comment := l_comment a + l_comment s; l_blank := l_blank a + l_blank s |}) rs lstats0.
+  fold_left (fun a r => if r_structure r then a else add_stats a (raw_stats r)) rs lstats0.
+
+(* structure_violation_to_check_result: [actual] is the count the limit was compared with *)
+Definition structure_result (path : str) (st : status) (actual limit : N) (reason : option str) : result :=
+  {| r_path := path; r_status := st; r_stats := {| l_total := actual; l_code := actual; l_comment := 0; l_blank := 0 |};
+     r_raw := None; r_limit := limit; r_reason := reason; r_sugg := None; r_structure := true |}.
 
 (* ---------------------------------------------------------------- check vs stats for one file *)
 
